@@ -5,6 +5,7 @@ package recordlayer
 
 import (
 	"encoding/binary"
+	"math"
 
 	dtlserrors "github.com/pion/dtls/v3/internal/errors"
 	"github.com/pion/dtls/v3/pkg/protocol"
@@ -56,6 +57,10 @@ func (r *RecordLayer) Marshal() ([]byte, error) {
 		return nil, err
 	}
 
+	if len(contentRaw) > math.MaxUint16 {
+		// The length field would wrap.
+		return nil, dtlserrors.ErrRecordTooLong
+	}
 	r.Header.ContentLen = uint16(len(contentRaw)) //nolint:gosec // G115
 	r.Header.ContentType = r.Content.ContentType()
 
